@@ -3,6 +3,8 @@ import JmesVerif.Model.Interp
 import JmesVerif.Lemmas.Positions
 import JmesVerif.Lemmas.Signature
 import JmesVerif.Generated.Vocab
+import JmesVerif.Lemmas.ErrorOffsetsParse
+import JmesVerif.Lemmas.F64Spec
 /-!
 # C12 — errors are classified and located truthfully
 
@@ -14,6 +16,8 @@ import JmesVerif.Generated.Vocab
   boundaries inside the expression; a call's offset is the position of its `(`, a slice's that
   of its `]`;
 * `C12_validate_error_offset` — arity and type errors carry the offset of the call being validated.
+* (last section) the global invariant over whole evaluations: `C12_runtime_error_located_deep`,
+  `C12_runtime_error_located`, `C12_search_error_located`, `C12_error_classes`.
 -/
 namespace JmesVerif
 open Errors Spec
@@ -112,3 +116,328 @@ end JmesVerif
 #print axioms JmesVerif.C12_unknown_function_offset
 #print axioms JmesVerif.C12_invalid_slice_offset
 #print axioms JmesVerif.C12_error_vocabulary
+
+/-! ## The global invariant: where the errors of a whole evaluation point
+
+Proved by one induction over the interpreter's mutual block (`Lemmas/ErrorOffsetsInterp.lean`,
+`locStep_all`), carrying the companion invariant that every value returned only holds expression
+references whose call / slice offsets come from the tree or from the input data
+(`C12_result_exprefs_from_input`) — so an error raised later inside `map` / `sort_by` / `max_by` /
+`min_by`, which interpret an expression reference held in an argument *value*, is still located.
+
+`Ast.callOffsets` / `Ast.sliceOffsets` do not look into literal values, but `Variable::Expref` is a
+`Variable`, so a hand-built `Ast::Literal` may hold a tree (`C12_literal_expref_escapes`: then the
+error points into that literal, and is *not* in `a.callOffsets`).  Hence two versions: the `_deep`
+one for every tree (`Ast.callOffsetsDeep` descends into literals), and the one over
+`Ast.callOffsets` for trees whose literals are JSON (`Ast.LitJson`), which is all the parser ever
+builds (`parseExpr_litJson`). -/
+
+namespace JmesVerif
+
+theorem deepOffsets_append (a : Ast) (d : Val) :
+    a.callOffsetsDeep ++ d.exprefCallOffsets = (a.nodesD ++ d.exNodes).filterMap OKind.callOff ∧
+    a.sliceOffsetsDeep ++ d.exprefSliceOffsets = (a.nodesD ++ d.exNodes).filterMap OKind.sliceOff := by
+  simp [Ast.callOffsetsDeep, Ast.sliceOffsetsDeep, Val.exprefCallOffsets, Val.exprefSliceOffsets,
+    List.filterMap_append]
+
+/-- **Names the call that failed.**  The node a runtime error of `interp` points at, by kind — in the
+tree being evaluated (literals included: `Ast.nodesD`) or in an expression reference held in the
+input data (`Val.exNodes`):
+* `InvalidSlice`: a slice node;
+* `UnknownFunction(name)`: a call of `name`, and `name` is not registered;
+* `InvalidReturnType`: a call of a name bound to `sort_by` / `max_by` / `min_by` — the by-function's
+  own call, not a call nested in its expression reference (the F10 repair);
+* `TooManyArguments`, `NotEnoughArguments`, `InvalidType`: a call of a registered name. -/
+theorem C12_runtime_error_names_call (rt : Registry) (fuel : Nat) (d : Val) (a : Ast) (off : Nat)
+    (e : RtErr) (o : Nat) (h : interp rt fuel d a off = .error (.runtime e o)) :
+    match e with
+    | .invalidSlice => (OKind.slice, o) ∈ a.nodesD ++ d.exNodes
+    | .unknownFunction n => (OKind.call n, o) ∈ a.nodesD ++ d.exNodes ∧ rt.get n = none
+    | .invalidReturnType _ _ _ _ => ∃ n b, (OKind.call n, o) ∈ a.nodesD ++ d.exNodes ∧
+        rt.get n = some (.builtin b) ∧ (b = .sortBy ∨ b = .maxBy ∨ b = .minBy)
+    | _ => ∃ n f, (OKind.call n, o) ∈ a.nodesD ++ d.exNodes ∧ rt.get n = some f := by
+  have := interp_located rt fuel d a off
+  rw [h] at this
+  cases e with
+  | invalidSlice => exact this
+  | unknownFunction n => exact this
+  | invalidReturnType x y z w =>
+    obtain ⟨b, ⟨n, hn, hg⟩, hb⟩ := this
+    refine ⟨n, b, hn, hg, ?_⟩
+    cases b <;> simp [Builtin.isBy] at hb <;> simp
+  | tooMany x y => obtain ⟨f, n, hn, hg⟩ := this; exact ⟨n, f, hn, hg⟩
+  | notEnough x y => obtain ⟨f, n, hn, hg⟩ := this; exact ⟨n, f, hn, hg⟩
+  | invalidType x y z => obtain ⟨f, n, hn, hg⟩ := this; exact ⟨n, f, hn, hg⟩
+
+/-- **Located, every tree.**  A runtime error of `interp` carries the offset of a slice node
+(`InvalidSlice`) resp. of a call node (every other kind) of the tree being evaluated — literals
+included — or of an expression reference held in the input data. -/
+theorem C12_runtime_error_located_deep (rt : Registry) (fuel : Nat) (d : Val) (a : Ast) (off : Nat)
+    (e : RtErr) (o : Nat) (h : interp rt fuel d a off = .error (.runtime e o)) :
+    (e = .invalidSlice → o ∈ a.sliceOffsetsDeep ++ d.exprefSliceOffsets) ∧
+    (e ≠ .invalidSlice → o ∈ a.callOffsetsDeep ++ d.exprefCallOffsets) := by
+  have := C12_runtime_error_names_call rt fuel d a off e o h
+  rw [(deepOffsets_append a d).1, (deepOffsets_append a d).2, mem_callOff, mem_sliceOff]
+  cases e with
+  | invalidSlice => exact ⟨fun _ => this, fun hne => absurd rfl hne⟩
+  | unknownFunction n => exact ⟨fun hh => (by cases hh), fun _ => ⟨n, this.1⟩⟩
+  | invalidReturnType x y z w =>
+    obtain ⟨n, b, hn, _⟩ := this; exact ⟨fun hh => (by cases hh), fun _ => ⟨n, hn⟩⟩
+  | tooMany x y => obtain ⟨n, f, hn, _⟩ := this; exact ⟨fun hh => (by cases hh), fun _ => ⟨n, hn⟩⟩
+  | notEnough x y => obtain ⟨n, f, hn, _⟩ := this; exact ⟨fun hh => (by cases hh), fun _ => ⟨n, hn⟩⟩
+  | invalidType x y z => obtain ⟨n, f, hn, _⟩ := this; exact ⟨fun hh => (by cases hh), fun _ => ⟨n, hn⟩⟩
+
+/-- **Located.**  For a tree whose literals are JSON values (every parsed tree:
+`C12_parsed_literals_json`): an `InvalidSlice` error carries the offset of a slice node of the tree
+or of an expression reference in the data; every other runtime error (`UnknownFunction`,
+`TooManyArguments`, `NotEnoughArguments`, `InvalidType`, `InvalidReturnType`) the offset of a call
+node of the tree or of an expression reference in the data. -/
+theorem C12_runtime_error_located (rt : Registry) (fuel : Nat) (d : Val) (a : Ast) (off : Nat)
+    (hl : a.LitJson = true)
+    (e : RtErr) (o : Nat) (h : interp rt fuel d a off = .error (.runtime e o)) :
+    (e = .invalidSlice → o ∈ a.sliceOffsets ++ d.exprefSliceOffsets) ∧
+    (e ≠ .invalidSlice → o ∈ a.callOffsets ++ d.exprefCallOffsets) := by
+  have := C12_runtime_error_located_deep rt fuel d a off e o h
+  rwa [Ast.callOffsetsDeep_eq a hl, Ast.sliceOffsetsDeep_eq a hl] at this
+
+/-- the companion invariant: the expression references in a value returned by `interp` only contain
+call / slice nodes of the tree or of expression references in the input data -/
+theorem C12_result_exprefs_from_input (rt : Registry) (fuel : Nat) (d : Val) (a : Ast) (off : Nat)
+    (v : Val) (off' : Nat) (h : interp rt fuel d a off = .ok (v, off')) :
+    (∀ p ∈ v.exNodes, p ∈ a.nodesD ++ d.exNodes) ∧
+    (∀ o ∈ v.exprefCallOffsets, o ∈ a.callOffsetsDeep ++ d.exprefCallOffsets) ∧
+    (∀ o ∈ v.exprefSliceOffsets, o ∈ a.sliceOffsetsDeep ++ d.exprefSliceOffsets) := by
+  have := interp_located rt fuel d a off
+  rw [h] at this
+  have h1 : ∀ p ∈ v.exNodes, p ∈ a.nodesD ++ d.exNodes := fun p hp => this p hp
+  refine ⟨h1, ?_, ?_⟩
+  · intro o ho
+    rw [(deepOffsets_append a d).1, mem_callOff]
+    obtain ⟨n, hn⟩ := (mem_callOff o _).1 ho
+    exact ⟨n, h1 _ hn⟩
+  · intro o ho
+    rw [(deepOffsets_append a d).2, mem_sliceOff]
+    exact h1 _ ((mem_sliceOff o _).1 ho)
+
+/-- the parser only builds trees whose literals are JSON values -/
+theorem C12_parsed_literals_json (cs : List Char) (e : Expr) (a : Ast) (h : parseExpr cs = .ok (e, a)) :
+    a.LitJson = true := parseExpr_litJson cs e a h
+
+/-- **Located in the text.**  Searching a JSON document with a compiled expression: the offset of an
+`InvalidSlice` error is the position of a `]` token of the expression, the offset of every other
+runtime error the position of a `(` token (the opening parenthesis of the call that failed). -/
+theorem C12_search_error_located (rt : Registry) (fuel : Nat) (cs : List Char) (e : Expr) (a : Ast)
+    (ts : List PT) (d : Val) (r : RtErr) (o : Nat)
+    (hp : parseExpr cs = .ok (e, a)) (ht : tokenize cs = .ok ts) (hd : d.isJson = true)
+    (h : search rt fuel a d = .error (.runtime r o)) :
+    (r = .invalidSlice → (o, Tok.rbracket) ∈ ts) ∧ (r ≠ .invalidSlice → (o, Tok.lparen) ∈ ts) := by
+  have hl := parseExpr_litJson cs e a hp
+  have hpt : parseTokens ts = .ok (e, a) := by
+    unfold parseExpr at hp
+    rw [ht] at hp
+    simp only at hp
+    split at hp
+    · simp at hp
+    · rename_i r' hr; simp only [Except.ok.injEq] at hp; rw [hr, hp]
+  obtain ⟨_, hcall, hslice⟩ := parse_offsets ts e a hpt
+  have hi : interp rt fuel d a 0 = .error (.runtime r o) := by
+    unfold search at h
+    split at h
+    · simp at h
+    · rename_i e' he; simp only [Except.error.injEq] at h; rw [he, h]
+  have := C12_runtime_error_located rt fuel d a 0 hl r o hi
+  rw [Val.exprefCallOffsets_json d hd, Val.exprefSliceOffsets_json d hd, List.append_nil,
+    List.append_nil] at this
+  exact ⟨fun h1 => hslice o (this.1 h1), fun h1 => hcall o (this.2 h1)⟩
+
+/-- **Classes.**  Every failure of `interp` is a runtime error (located by the theorems above); or
+an `internal` error carrying one of the three messages of `numOfF64` (abs / avg / ceil / floor / sum
+producing a non-finite double: finding F14); or the slice-loop fault, which needs a slice node in
+the tree or in an expression reference of the data (and, `C12_slice_fault_needs_huge_array`, an
+array longer than `i32::MAX`); or the model's fuel.  No `unreachable!()` / index-out-of-bounds arm
+of a builtin or of the validator is ever reached. -/
+theorem C12_error_classes (rt : Registry) (fuel : Nat) (d : Val) (a : Ast) (off : Nat) (err : EvalErr)
+    (h : interp rt fuel d a off = .error err) :
+    (∃ r o, err = .runtime r o) ∨
+    (∃ msg, err = .internal msg ∧
+      msg ∈ ["Expected to be a valid f64", "Expected n.ceil() to be a valid f64", "Expected to be a valid number"]) ∨
+    (err = .panic "slice" ∧ a.sliceOffsetsDeep ++ d.exprefSliceOffsets ≠ []) ∨
+    err = .fuel := by
+  have := interp_located rt fuel d a off
+  rw [h] at this
+  cases err with
+  | runtime r o => exact .inl ⟨r, o, rfl⟩
+  | internal msg => exact .inr (.inl ⟨msg, rfl, this⟩)
+  | panic m =>
+    simp only [ROk_error, EOk, FromInput] at this
+    obtain ⟨rfl, o, ho⟩ := this
+    refine .inr (.inr (.inl ⟨rfl, ?_⟩))
+    rw [(deepOffsets_append a d).2]
+    exact List.ne_nil_of_mem ((mem_sliceOff o _).2 ho)
+  | fuel => exact .inr (.inr (.inr rfl))
+
+/-- in particular an evaluation that involves no slice node cannot panic at all -/
+theorem C12_no_panic_without_slice (rt : Registry) (fuel : Nat) (d : Val) (a : Ast) (off : Nat) (m : String)
+    (hs : a.sliceOffsetsDeep ++ d.exprefSliceOffsets = []) :
+    interp rt fuel d a off ≠ .error (.panic m) := by
+  intro h
+  rcases C12_error_classes rt fuel d a off _ h with ⟨r, o, h'⟩ | ⟨msg, h', _⟩ | ⟨_, h'⟩ | h'
+  · cases h'
+  · cases h'
+  · exact h' hs
+  · cases h'
+
+/-- the slice arm faults only for a non-zero step on an array longer than `i32::MAX`
+(`C05_slice_total` / `C07_slice_eq_python`); threading an array-length bound through whole
+evaluations (flatten and projections grow arrays) is not done here, so `.panic "slice"` stays in
+`C12_error_classes` -/
+theorem C12_slice_fault_needs_huge_array (rt : Registry) (fuel : Nat) (d : Val) (o : Nat)
+    (st sp : Option Int) (step : Int) (off : Nat) (m : String)
+    (h : interp rt fuel d (.slice o st sp step) off = .error (.panic m)) :
+    step ≠ 0 ∧ m = "slice" ∧ ∃ xs, d = .arr xs ∧ I32_MAX < (xs.length : Int) :=
+  slice_panic_huge rt fuel d o st sp step off m h
+
+/-! ### non-vacuity: each kind is raised, at the offset the theorems predict -/
+
+/-- a registry with two builtins and a custom function with a signature -/
+def c12rt : Registry :=
+  [("abs", .builtin .abs), ("max_by", .builtin .maxBy), ("map", .builtin .map),
+   ("f", .custom 7 (some ⟨[.number], none⟩))]
+
+/-- `abs('a')` with the call at offset 3: `InvalidType` at 3 -/
+example : interp c12rt 5 .null (.function 3 "abs" [.literal 4 (.str "a")]) 0
+    = .error (.runtime (.invalidType "number" "string" 0) 3) := by
+  simp [interp, interpAll, c12rt, Registry.get, callFn, Builtin.sig, Sig.validate, Sig.validateArity,
+    Sig.validateArgs, ArgT.isValid, Val.type, ArgT.name, JType.name]
+
+/-- `abs()`: `NotEnoughArguments` at the call; `abs(@, @)`: `TooManyArguments` -/
+example : interp c12rt 5 .null (.function 3 "abs" []) 0 = .error (.runtime (.notEnough 1 0) 3) := by
+  simp [interp, interpAll, c12rt, Registry.get, callFn, Builtin.sig, Sig.validate, Sig.validateArity]
+example : interp c12rt 5 .null (.function 3 "abs" [.identity 4, .identity 6]) 0
+    = .error (.runtime (.tooMany 1 2) 3) := by
+  simp [interp, interpAll, c12rt, Registry.get, callFn, Builtin.sig, Sig.validate, Sig.validateArity]
+
+/-- an unknown function inside the argument of a known one: the inner call's offset -/
+example : interp c12rt 5 .null (.function 3 "abs" [.function 9 "nope" []]) 0
+    = .error (.runtime (.unknownFunction "nope") 9) := by
+  simp [interp, interpAll, c12rt, Registry.get]
+
+/-- a custom function with a signature: its type error is at its own call -/
+example : interp c12rt 5 .null (.function 1 "f" [.literal 2 (.str "a")]) 0
+    = .error (.runtime (.invalidType "number" "string" 0) 1) := by
+  simp [interp, interpAll, c12rt, Registry.get, callFn, Sig.validate, Sig.validateArity,
+    Sig.validateArgs, ArgT.isValid, Val.type, ArgT.name, JType.name]
+
+/-- `[::0]` at offset 4 -/
+example : interp c12rt 5 (.arr []) (.slice 4 none none 0) 0 = .error (.runtime .invalidSlice 4) := by
+  simp [interp]
+
+/-- `max_by(@, &abs(@))` on `[true]` (call at 6, inner call at 12): the by-function fails inside the
+expression reference — the error is at the *inner* call -/
+example : interp c12rt 9 (.arr [.bool true])
+      (.function 6 "max_by" [.identity 7, .expref 10 (.function 12 "abs" [.identity 13])]) 0
+    = .error (.runtime (.invalidType "number" "boolean" 0) 12) := by
+  simp [interp, interpAll, c12rt, Registry.get, callFn, byExtreme, Builtin.sig, Sig.validate, Sig.validateArity,
+    Sig.validateArgs, ArgT.isValid, Val.type, ArgT.name, JType.name]
+
+/-- `max_by(@, &@)` on `[true]`: `InvalidReturnType` at the `max_by` call (offset restored: F10) -/
+example : interp c12rt 9 (.arr [.bool true])
+      (.function 6 "max_by" [.identity 7, .expref 10 (.identity 11)]) 0
+    = .error (.runtime (.invalidReturnType "expression->number|expression->string" "boolean" 1 1) 6) := by
+  simp [interp, interpAll, c12rt, Registry.get, callFn, byExtreme, Builtin.sig, Sig.validate, Sig.validateArity,
+    Sig.validateArgs, ArgT.isValid, Val.type, JType.name]
+
+/-- `max_by(@, &f(@))` on `[1]` (call at 6, nested call of the custom function at 12, which succeeds
+and returns an object): `InvalidReturnType` is reported at the `max_by` call 6, not at the nested
+call 12 that ran last — the register is restored after a call returns (F10) -/
+example : interp c12rt 9 (.arr [.num (.pos 1)])
+      (.function 6 "max_by" [.identity 7, .expref 10 (.function 12 "f" [.identity 13])]) 0
+    = .error (.runtime (.invalidReturnType "expression->number|expression->string" "object" 1 1) 6) := by
+  simp [interp, interpAll, c12rt, Registry.get, callFn, byExtreme, Builtin.sig, Sig.validate, Sig.validateArity,
+    Sig.validateArgs, ArgT.isValid, Val.type, JType.name, customResult]
+
+/-- an expression reference held in the *data*: `map(@[0], @)`-like call whose first argument comes
+from the data; the error is at the call inside the data's tree (offset 40), which is in
+`d.exprefCallOffsets`, not in the tree being evaluated -/
+example : interp c12rt 9 (.arr [.expref (.function 40 "nope" [])])
+      (.function 3 "map" [.index 4 0, .identity 8]) 0
+    = .error (.runtime (.unknownFunction "nope") 40) := by
+  simp [interp, interpAll, c12rt, Registry.get, callFn, mapExpref, Builtin.sig, Sig.validate, Sig.validateArity,
+    Sig.validateArgs, ArgT.isValid, Val.type, indexList, getIndex]
+example : (Val.arr [.expref (.function 40 "nope" [])]).exprefCallOffsets = [40] := by
+  simp [Val.exprefCallOffsets, Val.exNodes, exNodesVs, Ast.nodesD, nodesDL, OKind.callOff]
+
+/-- **why `LitJson` is needed**: a literal holding an expression reference (not buildable by the
+parser, buildable through the public `Ast` type).  The error points into the literal: offset 7 is
+in `callOffsetsDeep` but not in `callOffsets`. -/
+theorem C12_literal_expref_escapes :
+    let a : Ast := .function 1 "map" [.literal 2 (.expref (.function 7 "nope" [])), .literal 3 (.arr [.null])]
+    interp c12rt 9 .null a 0 = .error (.runtime (.unknownFunction "nope") 7) ∧
+    a.callOffsets = [1] ∧ a.callOffsetsDeep = [1, 7] ∧ (Val.null).exprefCallOffsets = [] := by
+  refine ⟨?_, ?_, ?_, ?_⟩
+  · simp [interp, interpAll, c12rt, Registry.get, callFn, mapExpref, Builtin.sig, Sig.validate, Sig.validateArity,
+      Sig.validateArgs, ArgT.isValid, Val.type]
+  · simp [Ast.callOffsets, Ast.callOffsetsL]
+  · simp [Ast.callOffsetsDeep, Ast.nodesD, nodesDL, Val.exNodes, exNodesVs, OKind.callOff]
+  · simp [Val.exprefCallOffsets, Val.exNodes]
+
+/-! the `internal` class (F14): `sum(@)` on `[1.7976931348623157e308, 1.7976931348623157e308]` — two
+finite doubles whose sum overflows — fails with the message of `numOfF64`, no expression, offset 0 -/
+open F64 in
+theorem maxVal_add_overflow : F64.add F64.maxVal F64.maxVal = .inf false := by
+  have h970 : pow2 971 = 2 * pow2 970 := pow2_succ 970
+  have h1024 : pow2 1024 = 18014398509481984 * pow2 970 := by
+    have : pow2 (970 + 54) = pow2 970 * pow2 54 := pow2_add 970 54
+    have h54 : pow2 54 = 18014398509481984 := by simp [pow2]
+    rw [show (1024 : Int) = 970 + 54 from rfl, this, h54, Rat.mul_comm]
+  have hp := pow2_pos 970
+  have hq : maxVal.toRat + maxVal.toRat = 36028797018963964 * pow2 970 := by
+    simp only [maxVal, toRat, h970]
+    grind
+  have hnn : ¬ (maxVal.toRat + maxVal.toRat < 0) := by
+    rw [hq]; grind
+  have := (ofRatSigned_inf_iff (false && false) (maxVal.toRat + maxVal.toRat)).2 (by
+    unfold absq
+    rw [if_neg hnn, hq, h1024]
+    grind)
+  rw [decide_eq_false hnn] at this
+  simpa [F64.add, maxVal] using this
+
+open F64 in
+theorem zero_add_maxVal : F64.add F64.zero F64.maxVal = F64.maxVal := by
+  have hc : CanonME 9007199254740991 971 := by
+    right; right; refine ⟨by decide, by decide, by decide, by decide⟩
+  have hr := roundPos_canon hc
+  have hp := pow2_pos 971
+  have hq : zero.toRat + maxVal.toRat = (9007199254740991 : Nat) * pow2 971 := by
+    simp [zero, maxVal, toRat, Rat.zero_add]
+  have hnn : ¬ ((9007199254740991 : Nat) * pow2 971 < 0) := by
+    have : (0 : Rat) ≤ (9007199254740991 : Nat) * pow2 971 := Rat.mul_nonneg (by decide) (Rat.le_of_lt hp)
+    grind
+  show ofRatSigned (false && false) (zero.toRat + maxVal.toRat) = maxVal
+  rw [hq]
+  unfold ofRatSigned
+  rw [if_neg hnn, hr]
+  simp only [maxVal]
+  rw [decide_eq_false hnn]
+
+theorem C12_internal_inhabited :
+    interp [("sum", .builtin .sum)] 5 (.arr [.num (.flt F64.maxVal), .num (.flt F64.maxVal)])
+      (.function 3 "sum" [.identity 4]) 0 = .error (.internal "Expected to be a valid number") := by
+  simp [interp, interpAll, Registry.get, callFn, Builtin.sig, Sig.validate, Sig.validateArity, arrNum,
+    Sig.validateArgs, ArgT.isValid, allValid, Val.type, Builtin.usesExpref,
+    Builtin.pure, sumF64, valNum, Num.toF64, zero_add_maxVal, maxVal_add_overflow, numOfF64, F64.isFinite]
+
+end JmesVerif
+
+#print axioms JmesVerif.C12_runtime_error_names_call
+#print axioms JmesVerif.C12_runtime_error_located_deep
+#print axioms JmesVerif.C12_runtime_error_located
+#print axioms JmesVerif.C12_result_exprefs_from_input
+#print axioms JmesVerif.C12_parsed_literals_json
+#print axioms JmesVerif.C12_search_error_located
+#print axioms JmesVerif.C12_error_classes
+#print axioms JmesVerif.C12_no_panic_without_slice
+#print axioms JmesVerif.C12_slice_fault_needs_huge_array
+#print axioms JmesVerif.C12_literal_expref_escapes
+#print axioms JmesVerif.C12_internal_inhabited
